@@ -20,6 +20,8 @@ executed exactly over `Rat` (linear / noise layouts).
        3 innovation invalid
 
 Numbers are 16-hex-digit doubles or exact rationals `num/den`.
+
+Float execution (circular / quaternion layouts): `spl`, `utl` below.
 -/
 namespace BFL.DriverUT
 open BFL BFL.Proto
@@ -227,6 +229,56 @@ def uukfc : R String := do
     let res := ukfCorrectAugmented fac invOrZero a b kp (if fail == 1 then none else some y) f Rm innov pred out
     pure (outCorr res)
 
+
+/-! ### Float execution: circular and quaternion layouts -/
+
+instance : Zero Float := ⟨0.0⟩
+instance : One Float := ⟨1.0⟩
+instance {r c : Nat} : Inhabited (Mat Float r c) := ⟨Mat.of (fun _ _ => 0.0)⟩
+
+def readBlocks {r c : Nat} (k : Nat) : R (Array (Mat Float r c)) := do
+  let mut acc : Array (Mat Float r c) := #[]
+  for _ in [0:k] do
+    acc := acc.push (Mat.eval (← matCM flt r c))
+  pure acc
+
+/-- spl lin circ quat noise k | means (dim × k) | perturbations (dof × (2dof+1), one block per component)
+    -> "ok" sigma points (dim × (2dof+1) per component, column-major) -/
+def spl : R String := do
+  let lin ← nat; let circ ← nat; let quat ← bool; let noise ← nat; let k ← nat
+  let ly : Layout := { lin := lin, circ := circ, quat := quat, noise := noise }
+  let means ← matCM flt ly.dim k
+  let perts ← readBlocks (r := ly.dof) (c := 2 * ly.dof + 1) k
+  done
+  let outs := (List.range k).flatMap fun i =>
+    let m : Vec Float ly.dim := Vec.eval (Vec.of (fun r => means.getN r.val i))
+    outMatCM floatStr (sigmaPointsLayout ly m (perts[i]!))
+  pure (join ("ok" :: outs))
+
+/-- utl linI circI quatI noiseI linO circO quatO k | wm wc (2 dofI + 1 each) | input means (dimI × k)
+      | X (dimI × N per component) | Y (dimO × N per component) | eigenvector results (4 per quaternion block per component)
+    -> "ok" per component: mean (dimO), covariance (dofO²), cross ((dofI − noiseI) × dofO) -/
+def utl : R String := do
+  let linI ← nat; let circI ← nat; let quatI ← bool; let noiseI ← nat
+  let linO ← nat; let circO ← nat; let quatO ← bool; let k ← nat
+  let lyI : Layout := { lin := linI, circ := circI, quat := quatI, noise := noiseI }
+  let lyO : Layout := { lin := linO, circ := circO, quat := quatO, noise := 0 }
+  let wm ← vec flt (2 * lyI.dof + 1)
+  let wc ← vec flt (2 * lyI.dof + 1)
+  let means ← matCM flt lyI.dim k
+  let Xs ← readBlocks (r := lyI.dim) (c := 2 * lyI.dof + 1) k
+  let Ys ← readBlocks (r := lyO.dim) (c := 2 * lyI.dof + 1) k
+  let nq := if quatO then circO else 0
+  let qm ← matCM flt 4 (nq * k)
+  done
+  let w : UTWeight Float lyI.dof := { mean := wm, cov := wc, c := 0.0 }
+  let outs := (List.range k).flatMap fun i =>
+    let m : Vec Float lyI.dim := Vec.eval (Vec.of (fun r => means.getN r.val i))
+    let qmean : Nat → Quat Float := fun q => quatAt qm 0 (nq * i + q)
+    let res := utLayoutComponent lyI lyO w m (Xs[i]!) (Ys[i]!) qmean
+    outVec floatStr res.1 ++ outMatCM floatStr res.2.1 ++ outMatCM floatStr res.2.2
+  pure (join ("ok" :: outs))
+
 def handle (op : String) (args : List String) : Option String :=
   match op with
   | "utw" => some ((run utw args).getD "bad-args")
@@ -235,6 +287,8 @@ def handle (op : String) (args : List String) : Option String :=
   | "utf" => some ((run utf args).getD "bad-args")
   | "uukfp" => some ((run uukfp args).getD "bad-args")
   | "uukfc" => some ((run uukfc args).getD "bad-args")
+  | "spl" => some ((run spl args).getD "bad-args")
+  | "utl" => some ((run utl args).getD "bad-args")
   | _ => none
 
 end BFL.DriverUT
